@@ -1,2 +1,5 @@
 -- Property files of work group A (import UF.Props.Cxx lines go here).
 import UF.Driver.Ops.GroupA
+import UF.Proofs.RegexFast
+import UF.Proofs.RegexParse
+import UF.Props.C05
